@@ -12,7 +12,11 @@
 (* attribute components A[i][c] * Z[i] / ZDEN (what the renderer hands to  *)
 (* the rasteriser); the fragment must carry depth  sum(l_i Z_i)/ZDEN  and  *)
 (* attribute  sum(l_i A_i Z_i) / sum(l_i Z_i)  with l_i the screen-space   *)
-(* barycentrics E_i / E.                                                   *)
+(* barycentrics E_i / E.  Both are homogeneous in the reciprocal depths:   *)
+(* multiplying every Z[i] by 2^zsc (record field zsc, the surface seen at   *)
+(* another absolute distance) multiplies the depth by 2^zsc and leaves the  *)
+(* attribute unchanged, so the recorder divides the observed depth by       *)
+(* 2^zsc (exactly) and the relation never mentions zsc.                     *)
 (***************************************************************************)
 EXTENDS Integers, Sequences, FiniteSets, TLC
 
